@@ -8,7 +8,7 @@ TARGETS = ["Run.vo"]
 IMPORTS = "From VF Require Import Base Show Gen_Errors Status Run."
 ALLOWED_AXIOMS = []
 PROFILES = ["debug"]
-ASSUMPTIONS = ["device wired as examples/minimal_scpi.rs (VecDeque error queue, scpi_stb/scpi_cls/scpi_opc); "
+ASSUMPTIONS = ["device wired as examples/minimal_scpi.rs (the library VecErrorQueue as error queue, scpi_stb/scpi_cls/scpi_opc); "
                "message -> operation mapping by the template table of tools/props/statuslib.py (op-level model; the "
                "byte-level path is covered by C02/C04/C06/C07)"]
 
